@@ -1,6 +1,7 @@
 import SqlObjVerif.Lemmas.Codec
 import SqlObjVerif.Lemmas.CodecXChain
 import SqlObjVerif.Lemmas.CodecXSel
+import SqlObjVerif.Lemmas.CodecWRound
 /-!
 # C01 — stored values read back unchanged; a query for the value finds the row; any other accepted
 value is normalised or rejected, never stored unreadable
@@ -531,3 +532,90 @@ example : runV cfgDecStr decStrFromPython (.decimal [49, 46, 53]) = some (.ok (.
 example : runV cfgDecStr decStrToPython (.str [49, 46, 53]) = some (.ok (.decimal [49, 46, 53])) := by decide
 
 end SqlObjVerif.PyCodec
+
+/-!
+# C01 — the WRITE PATHS end to end on translated source (`Model/CodecW.lean`)
+
+The conversion plumbing of main.py — `_SO_setValue`, `set`, `syncUpdate`, `_SO_getValue` as translated by
+`vlib/extractors/pymain.py` (re-targeted at the embedding `Model/PyMainV.lean`: C01's value universe, raising
+validators) — run with the translated validator chains of the column kinds and a row modelled by the hand model's
+`lit` / `evalLit` / `applyAff` / `fetch`.  `writeReadM T v` = `toDb`, the writer's `toPy` (an exception there ends the
+write), `roundtrip` (`lit`, store, `fetch`), `toPy`.
+-/
+namespace SqlObjVerif.CodecW
+open SqlObjVerif.Codec (Str PyVal ColT DT)
+
+/-- path "setattr" (`obj.col = v`, plus `syncUpdate()` on a lazy class), then the uncached read `_SO_getValue`: for
+    EVERY class shape whose validators are the translated chains (`Translated C`; `clsOf` builds them), column, kind,
+    cached attributes, row and value -/
+theorem C01_translated_setValue_roundtrip (C : Cls) (hC : Translated C) (vals : Nat → Option PyVal) (g : Row) (c : Nat) (hc : c < C.n)
+    (v : PyVal) : setattrPath C vals g c v = some (writeReadM (C.kind c) v) :=
+  setattrPath_eq C hC vals g c hc v
+
+/-- path "set" (`obj.set(col=v)`, one keyword; plus `syncUpdate()` on a lazy class) -/
+theorem C01_translated_set_roundtrip (C : Cls) (hC : Translated C) (vals : Nat → Option PyVal) (g : Row) (c : Nat) (hc : c < C.n)
+    (v : PyVal) : setPath C vals g c v = some (writeReadM (C.kind c) v) :=
+  setPath_eq C hC vals g c hc v
+
+/-- path "create" (`Cls(col=v)`): the translated `set(**kw)` while `_creating`, then the INSERT of
+    `_SO_createValues` (`finishCreateM`: HAND-MODELLED glue for `_create` / `_SO_finishCreate`) -/
+theorem C01_translated_create_roundtrip (C : Cls) (hC : Translated C) (c : Nat) (hc : c < C.n) (v : PyVal) :
+    createPath C c v = some (writeReadM (C.kind c) v) :=
+  createPath_eq C hC c hc v
+
+/-- where the writer's own conversion succeeds, the paths compute exactly the model's `readBack` -/
+theorem C01_writeRead_eq_readBack (T : ColT) (v y wc : PyVal) (hdb : Codec.toDb T v = .ok y) (hpy : Codec.toPy T y = .ok wc) :
+    writeReadM T v = Codec.readBack T v := by
+  simp [writeReadM, Codec.readBack, hdb, hpy, Codec.Res.bind]
+
+/-- … so the round-trip theorems hold end to end, translated source on BOTH sides: Int family -/
+theorem C01_translated_write_read_IntFamily (C : Cls) (hC : Translated C) (vals : Nat → Option PyVal) (g : Row) (c : Nat) (hc : c < C.n)
+    (hT : Codec.intFamily (C.kind c)) (i : Int) (h : Codec.int64 i = true) :
+    setattrPath C vals g c (.int i) = some (.ok (.int i)) ∧ setPath C vals g c (.int i) = some (.ok (.int i)) ∧
+    createPath C c (.int i) = some (.ok (.int i)) := by
+  have hw : writeReadM (C.kind c) (.int i) = .ok (.int i) := by
+    rw [C01_writeRead_eq_readBack _ _ (.int i) (.int i) (by rcases hT with h | h | h | h | h <;> rw [h] <;> rfl)
+      (by rcases hT with h | h | h | h | h <;> rw [h] <;> rfl), Codec.C01_roundtrip_IntFamily _ hT i h]
+  rw [setattrPath_eq C hC vals g c hc, setPath_eq C hC vals g c hc, createPath_eq C hC c hc, hw]
+  exact ⟨rfl, rfl, rfl⟩
+
+theorem C01_translated_write_read_String (C : Cls) (hC : Translated C) (vals : Nat → Option PyVal) (g : Row) (c : Nat) (hc : c < C.n)
+    (hT : C.kind c = .string) (s : Str) (h0 : 0 ∉ s) :
+    setattrPath C vals g c (.str s) = some (.ok (.str s)) ∧ setPath C vals g c (.str s) = some (.ok (.str s)) ∧
+    createPath C c (.str s) = some (.ok (.str s)) := by
+  have hw : writeReadM (C.kind c) (.str s) = .ok (.str s) := by
+    rw [hT, C01_writeRead_eq_readBack _ _ (.str s) (.str s) rfl rfl, Codec.C01_roundtrip_String s h0]
+  rw [setattrPath_eq C hC vals g c hc, setPath_eq C hC vals g c hc, createPath_eq C hC c hc, hw]
+  exact ⟨rfl, rfl, rfl⟩
+
+theorem C01_translated_write_read_Bool (C : Cls) (hC : Translated C) (vals : Nat → Option PyVal) (g : Row) (c : Nat) (hc : c < C.n)
+    (hT : C.kind c = .bool) (b : Bool) :
+    setattrPath C vals g c (.bool b) = some (.ok (.bool b)) ∧ setPath C vals g c (.bool b) = some (.ok (.bool b)) ∧
+    createPath C c (.bool b) = some (.ok (.bool b)) := by
+  have hw : writeReadM (C.kind c) (.bool b) = .ok (.bool b) := by
+    rw [hT, C01_writeRead_eq_readBack _ _ (.bool b) (.bool b) rfl rfl, Codec.C01_roundtrip_Bool b]
+  rw [setattrPath_eq C hC vals g c hc, setPath_eq C hC vals g c hc, createPath_eq C hC c hc, hw]
+  exact ⟨rfl, rfl, rfl⟩
+
+theorem C01_translated_write_read_DateTime (C : Cls) (hC : Translated C) (vals : Nat → Option PyVal) (g : Row) (c : Nat) (hc : c < C.n)
+    (hT : C.kind c = .dateTime ∨ C.kind c = .timestamp) (y mo d h mi s us : Nat)
+    (hv : (⟨y, mo, d, h, mi, s, us⟩ : DT).valid = true) :
+    setattrPath C vals g c (.datetime y mo d h mi s us) = some (.ok (.datetime y mo d h mi s us)) ∧
+    setPath C vals g c (.datetime y mo d h mi s us) = some (.ok (.datetime y mo d h mi s us)) ∧
+    createPath C c (.datetime y mo d h mi s us) = some (.ok (.datetime y mo d h mi s us)) := by
+  have hw : writeReadM (C.kind c) (.datetime y mo d h mi s us) = .ok (.datetime y mo d h mi s us) := by
+    rw [C01_writeRead_eq_readBack _ _ (.datetime y mo d h mi s us) (.datetime y mo d h mi s us)
+      (by rcases hT with h | h <;> rw [h] <;> rfl) (by rcases hT with h | h <;> rw [h] <;> rfl),
+      Codec.C01_roundtrip_DateTime _ hT y mo d h mi s us hv]
+  rw [setattrPath_eq C hC vals g c hc, setPath_eq C hC vals g c hc, createPath_eq C hC c hc, hw]
+  exact ⟨rfl, rfl, rfl⟩
+
+/-- non-vacuity: a two-column lazy class, the second column an IntCol -/
+example : setattrPath (clsOf 2 (fun k => if k = 1 then .int else .string) true true) (fun _ => none) (fun _ => .null) 1 (.int 5)
+    = some (.ok (.int 5)) :=
+  (C01_translated_write_read_IntFamily _ (clsOf_translated ..) _ _ 1 (by decide) (Or.inl rfl) 5 (by decide)).1
+/-- a fractional float never reaches the database on any path -/
+example : createPath (clsOf 1 (fun _ => .int) false true) 0 (.float (.lit [50, 46, 53])) = some .invalid := by
+  rw [createPath_eq _ (clsOf_translated ..) 0 (by decide)]; rfl
+
+end SqlObjVerif.CodecW
